@@ -56,6 +56,9 @@ func (g *VCGen) modLoc(env *SpecEnv, e Expr) []modLoc {
 		if path == nil {
 			env.fail("modifies: no field %s", x.Field)
 		}
+		if g.eng.isOutOfLine(pt.Elem(), st, path[0]) {
+			return []modLoc{{heap: g.so.heapFor(st.Field(path[0]).Type()), kind: "obj", ref: fmt.Sprintf("(fld %s %d)", base.T, path[0])}}
+		}
 		return []modLoc{{heap: g.so.heapFor(pt.Elem()), kind: "field", ref: base.T, sort: g.so.sortOf(pt.Elem()), field: path[0], st: st}}
 	case ECall:
 		switch x.Fn {
@@ -96,6 +99,10 @@ func (g *VCGen) modLoc(env *SpecEnv, e Expr) []modLoc {
 			}
 			if sl, ok := gt.Underlying().(*types.Slice); ok {
 				return []modLoc{{heap: g.so.sliceHeapFor(sl.Elem()), kind: "heap"}}
+			}
+			if mt, ok := gt.Underlying().(*types.Map); ok {
+				h, _ := g.so.mapHeapFor(mt)
+				return []modLoc{{heap: h, kind: "heap"}}
 			}
 			return []modLoc{{heap: g.so.heapFor(gt), kind: "heap"}}
 		case "global":
@@ -176,7 +183,7 @@ func (g *VCGen) frameFormula(pre, post *State, locs []modLoc, heaps []string) st
 				}
 			}
 			parts = append(parts, fmt.Sprintf("(forall ((fr Int)) (! (=> %s (= (select %s fr) (select %s fr))) :pattern ((select %s fr))))",
-				and(append([]string{fmt.Sprintf("(< fr %s)", pre.nextRef)}, exc...)...), b, a, b))
+				and(append([]string{fmt.Sprintf("(alive fr %s)", pre.nextRef)}, exc...)...), b, a, b))
 			// per-ref field preservation
 			for r := range refs {
 				var st *types.Struct
@@ -213,7 +220,7 @@ func (g *VCGen) frameFormula(pre, post *State, locs []modLoc, heaps []string) st
 						continue
 					}
 					sel := g.so.fieldSel(sn, st.Field(fi).Name(), fi)
-					parts = append(parts, implies(and(c, fmt.Sprintf("(< %s %s)", r, pre.nextRef)), fmt.Sprintf("(= (%s (select %s %s)) (%s (select %s %s)))", sel, b, r, sel, a, r)))
+					parts = append(parts, implies(and(c, fmt.Sprintf("(alive %s %s)", r, pre.nextRef)), fmt.Sprintf("(= (%s (select %s %s)) (%s (select %s %s)))", sel, b, r, sel, a, r)))
 				}
 			}
 		}
@@ -226,7 +233,7 @@ func (g *VCGen) frameSoFar(st *State) string {
 	if g.fc == nil {
 		return "true"
 	}
-	if hasProp(g.fc.Props, "noframe") {
+	if hasProp(g.fc.Props, "noframe") || g.fc.HasPreserves {
 		return "true"
 	}
 	env := g.ownEnv(g.entry)
@@ -281,7 +288,9 @@ func (g *VCGen) ghostHeap(name string) string {
 	if gd == nil {
 		panic(specErr("unknown ghost variable " + name))
 	}
-	return g.so.heap("GH!"+name, gd.sort)
+	env := &SpecEnv{g: g, vars: map[string]SpecVal{}}
+	s, _ := env.resolveSort(gd.sort)
+	return g.so.heap("GH!"+name, s)
 }
 
 func (g *VCGen) ghostVal(st *State, name string) (SpecVal, bool) {
@@ -290,5 +299,45 @@ func (g *VCGen) ghostVal(st *State, name string) (SpecVal, bool) {
 		return SpecVal{}, false
 	}
 	h := g.ghostHeap(name)
-	return SpecVal{g.heapTerm(st, h), gd.sort, nil}, true
+	return SpecVal{g.heapTerm(st, h), g.so.heaps[h], nil}, true
+}
+
+// havocAllBut: open-world callee. Every heap gets a fresh version (including heaps not mentioned so far: the
+// state's epoch is bumped); the listed locations keep their contents.
+func (g *VCGen) havocAllBut(pre *State, keep []modLoc) *State {
+	post := &State{heaps: map[string]string{}, epoch: g.eng.nextEpoch()}
+	for h, t := range pre.heaps {
+		if strings.HasPrefix(h, "IT!") {
+			post.heaps[h] = t // the seen-set of a range loop is ghost state of this function: no callee can touch it
+		}
+	}
+	for h := range g.so.heaps {
+		if strings.HasPrefix(h, "IT!") {
+			if _, ok := post.heaps[h]; !ok {
+				post.heaps[h] = g.heapTerm(pre, h)
+			}
+		}
+	}
+	nr := g.freshConst("nextRef@call", "Int")
+	g.assume(fmt.Sprintf("(>= %s %s)", nr, pre.nextRef))
+	post.nextRef = nr
+	var facts []string
+	for _, l := range keep {
+		a, b := g.heapTerm(pre, l.heap), g.heapTerm(post, l.heap)
+		switch l.kind {
+		case "heap", "global":
+			facts = append(facts, fmt.Sprintf("(= %s %s)", b, a))
+		case "obj":
+			facts = append(facts, fmt.Sprintf("(= (select %s %s) (select %s %s))", b, l.ref, a, l.ref))
+		case "field":
+			sel := g.so.fieldSel(l.sort, l.st.Field(l.field).Name(), l.field)
+			facts = append(facts, fmt.Sprintf("(= (%s (select %s %s)) (%s (select %s %s)))", sel, b, l.ref, sel, a, l.ref))
+		case "elems":
+			facts = append(facts, fmt.Sprintf("(forall ((fi Int)) (! (=> (and (<= %s fi) (< fi %s)) (= (select (select %s %s) fi) (select (select %s %s) fi))) :pattern ((select (select %s %s) fi))))", l.lo, l.hi, b, l.ref, a, l.ref, b, l.ref))
+		}
+	}
+	if len(facts) > 0 {
+		g.assumeHere(and(facts...))
+	}
+	return post
 }
